@@ -45,3 +45,30 @@ HARNESS(h_c20_alloc4d) {
     for (unsigned v : nb) OI(v);
     OI(g.voxel_lst_.size());
 }
+
+// O4/O5: place one object, query its retrievability and the neighbourhood of a second point.
+// din: [min(3), max(3), voxel, p(3), q(3)] iin: [which grid: 4 or 3]
+// iout: found_in_own_voxel, found_in_neighbourhood_of_q, count in full grid content, nb(3)
+HARNESS(h_c20_neigh) {
+    const double* D = io->din;
+    if (io->iin[0] == 4) {
+        uspg_4d<int> g(D[0], D[1], D[2], D[3], D[4], D[5], D[6], 1);
+        g.place_object(7, D[7], D[8], D[9]);
+        auto id = g.get_3d_voxel_index(D[7], D[8], D[9]);
+        int own = 0; for (int v : g.get_voxel_content(id[0], id[1], id[2])) own += (v == 7);
+        int nb = 0; for (int v : g.get_neighborhood(D[10], D[11], D[12])) nb += (v == 7);
+        int all = 0; for (int v : g.get_grid_content()) all += (v == 7);
+        OI(own); OI(nb); OI(all);
+        for (unsigned v : g.get_nb_voxels()) OI(v);
+    } else {
+        uspg_3d<int> g(D[0], D[1], D[2], D[3], D[4], D[5], D[6], 1);
+        g.place_object(7, D[7], D[8], D[9]);
+        auto id = g.get_3d_voxel_index(D[7], D[8], D[9]);
+        auto oc = g.get_voxel_content(id[0], id[1], id[2]);
+        int own = (oc.has_value() && oc.value() == 7);
+        int nb = 0; for (int v : g.get_neighborhood(D[10], D[11], D[12])) nb += (v == 7);
+        int all = 0; for (int v : g.get_grid_content()) all += (v == 7);
+        OI(own); OI(nb); OI(all);
+        for (unsigned v : g.get_nb_voxels()) OI(v);
+    }
+}
